@@ -17,16 +17,21 @@ Definition dec_text (l : list Z) : option (text * list Z) :=
                  if (n <=? length rest)%nat then Some (map Z.to_N (firstn n rest), skipn n rest) else None
   | [] => None
   end.
+Definition dec_otext (l : list Z) : option (option text * list Z) :=
+  match l with
+  | fl :: rest => if Z.eqb fl 0 then Some (None, rest)
+                  else match dec_text rest with Some (t, rest') => Some (Some t, rest') | None => None end
+  | [] => None
+  end.
 Definition dec_frow (l : list Z) : option (frow * list Z) :=
   match l with
   | i :: r :: rest =>
-      match dec_text rest with
-      | Some (a, fl :: rest') =>
-          if Z.eqb fl 0 then Some ({| f_id := Z.to_N i; f_rowid := Z.to_N r; f_a := a; f_b := None |}, rest')
-          else match dec_text rest' with
-               | Some (b, rest'') => Some ({| f_id := Z.to_N i; f_rowid := Z.to_N r; f_a := a; f_b := Some b |}, rest'')
-               | None => None end
-      | _ => None end
+      match dec_otext rest with
+      | Some (a, rest') =>
+          match dec_otext rest' with
+          | Some (b, rest'') => Some ({| f_id := Z.to_N i; f_rowid := Z.to_N r; f_a := a; f_b := b |}, rest'')
+          | None => None end
+      | None => None end
   | _ => None
   end.
 Fixpoint dec_frows (k : nat) (l : list Z) : option (list frow * list Z) :=
